@@ -6,6 +6,22 @@ ROOT = os.path.dirname(os.path.dirname(os.path.abspath(__file__)))
 
 # pid -> (engine, category, technique, level text, level note, design ref)
 CHECKS = {
+    'C01': ('E1+E4', 'model_checking',
+            'bounded exhaustive enumeration of solver configurations on the '
+            'real solve() (full core product + deviation-bounded lattice) '
+            'and of all environment scripts of a scripted SciPy Krylov '
+            'routine; residual recomputed with a reference FIT operator',
+            'Full product cycle x sslsolver x semicoarsening x '
+            'linerelaxation (1120 configurations) per grid x model, all '
+            'configurations with <= 1 (quick) / <= 2 (thorough) deviations '
+            'over 17 option domains, the full product source kind x '
+            'caller-supplied-field kind, and all Krylov scripts over {step '
+            'with/without callback, preconditioner call} x {return 0, '
+            'maxiter, breakdown} up to length 4/6. Every success report is '
+            'certified against an independently assembled operator.',
+            'Trusted: mc/refmodel/fit.py (validated against amat_x by C02), '
+            'SciPy sparse LU. Grids <= 8^3; value alphabets; 1e-3 slack on '
+            'the certificate.', '3/C01'),
     'C02': ('E1', 'model_checking',
             'bounded exhaustive enumeration of grid shapes/configurations; '
             'full unit-basis application of the real kernel vs. reference '
